@@ -176,7 +176,8 @@ def reconcilePhaseCtl (cfg : Cfg) (setKind ns : String) (name : String) (s : Sys
         let (w, r) := afterPhaseStatus (updatePhaseStatus w mem) .ok
         ({ s with w := w }, r)
       | .done =>
-        match setPhaseFinalizer w mem false with
+        -- `FreeCacheAndRemoveFinalizer`: `dynamicCache.Free(objectSetPhase)` first
+        match setPhaseFinalizer (w.free ow.wref) mem false with
         | (w, .error _) => ({ s with w := w, freed := s.freed ++ [mem.name] }, .err)
         | (w, .ok mem) =>
           let (w, r) := afterPhaseStatus (updatePhaseStatus w mem) .ok
